@@ -245,6 +245,11 @@ def check(pid, tier, seed):
         rp = vlib.save_replay(pid, name, ac.replay_body(pid, rep, vres2["byid"]))
         violations.append(("conformance", "%s [%d calls, class %s]" % (rep["text"], rep["count"], rep["key"]), rp))
 
+    # ---- 5b. options in force on connections that come out of a multi-address connect (name with both families) -----
+    import check_c13
+    tviol, tstats = check_c13.c11_part(pid, tier, seed)
+    violations += tviol
+
     # ---- 6. evidence ---------------------------------------------------------------------------------
     held = sum(1 for tp, p in all_paths if p[0][0] == "c" and p[0][1] == 1)
     samples = [{"path": "\n".join(ac.path_script(p, i + 1, tp)), "meaning": path_text(tp, p)} for i, (tp, p) in
@@ -268,6 +273,7 @@ def check(pid, tier, seed):
                crashes=len(pcrashes) + len(vres2["crashes"]), write_vectors=len(vecs), write_vectors_accepted=vst.get("sok", 0),
                write_vectors_refused=vst.get("srej", 0), vectors_not_executed=len(vres2["skipped"]),
                trace_validation_states=tv_states + vres2["tv_states"],
+               multi_address_connect=tstats,
                mismatch_classes={r["key"]: r["count"] for r in preports + vreports}, notes=dict(notes),
                mismatches_of_other_properties=dict(other), known_findings=known, exhaustive=T["emit"] == "transition" and T["per_tp"] is None)
     vlib.write_evidence(pid, tier, seed, "model_checking", cov, time.time() - t0, violations=len(violations),
@@ -276,12 +282,15 @@ def check(pid, tier, seed):
                                      "values are drawn from small domains (default, one alternative, one inadmissible value per option)",
                                      "TLS settings are compared through xcm_attr_get on the accepted socket, their effect on the handshake "
                                      "belongs to C09",
-                                     "DNS resolution ('resolving' life point) is not exercised; SCTP is not built",
+                                     "the 'resolving' life point is exercised only through the multi-address connects of the C13 harness (scripted resolver); SCTP is not built",
                                      "TLC and the JSON/IOUtils community modules are trusted"])
     return violations, known
 
 
 def replay(pid, path):
+    if path.endswith(".scn"):
+        import check_c13
+        return check_c13.replay(pid, path)
     binary = vlib.build(["attr_exec"])[0]
     ac.ensure_creds()
     text = open(path).read()
